@@ -15,7 +15,7 @@ from vf.run import Job, Result
 ID = 'C18'
 RULE = ('Parents: every entry kind and postings, parsed from generated texts whose existing meta layout is one of none / uniform indent of '
         'width 1-8 in spaces or tabs / mixed indents, with posting indents over blanks; indent_by over [ \\t]{0,8} set after parsing or at construction; '
-        'routes: meta[key] = value, raw_meta.append(MetaItem.from_value(indent=X)), raw_meta_with_comments.append(BlockComment.from_value(indent=X)), '
+        'routes: meta[key] = value (in a quarter of the cases on a deep copy of the parent), raw_meta.append(MetaItem.from_value(indent=X)), raw_meta_with_comments.append(BlockComment.from_value(indent=X)), '
         'leading_comment / trailing_comment setters on postings and meta items (in half the cases the created leading comment is then re-indented through its raw_text and its text set again through the owner), from_value(meta={...}) for entries and postings, and parents built with '
         'every constructor that accepts indent_by (found by reflection; arguments planned as in C15), optionally with their meta cleared, then meta[key] = value. Oracle: a meta item '
         'created from a plain value takes the indent its existing siblings share, or parent indent + indent_by when there are none (any existing '
@@ -24,7 +24,7 @@ RULE = ('Parents: every entry kind and postings, parsed from generated texts who
         'posting, or the existing items use a non-default indent.')
 ASSUMPTIONS = ['with disagreeing sibling indents any sibling\'s indent is accepted (docs and code differ on first vs last)']
 SHRINK_LISTS = ('ops',)
-REQUIRED_CLASSES = ('meta-view-used-before', 'parent-reindented', 'route:map-set', 'map-set:update', 'map-set:setdefault', 'route:raw-append', 'route:comment-append', 'route:comment-setter', 'comment-reset', 'route:from_value', 'route:constructed', 'constructed:from_value', 'constructed:from_children', 'constructed:cleared', 'parent:posting', 'parent:entry',
+REQUIRED_CLASSES = ('parent-copied', 'meta-view-used-before', 'parent-reindented', 'route:map-set', 'map-set:update', 'map-set:setdefault', 'route:raw-append', 'route:comment-append', 'route:comment-setter', 'comment-reset', 'route:from_value', 'route:constructed', 'constructed:from_value', 'constructed:from_children', 'constructed:cleared', 'parent:posting', 'parent:entry',
                     'layout:none', 'layout:uniform', 'layout:mixed')
 
 ENTRY_KINDS = sorted(L.G.ENTRY_KINDS)
@@ -74,6 +74,18 @@ def run_case(case: dict) -> Result:
         classes.add('parent-reindented')
     if iby is not None and hasattr(P, 'indent_by'):
         P.indent_by = iby
+    if case.get('via_copy') and route == 'map-set':
+        # the library's own advice for re-using a node: work on a deep copy - it carries the parent's indent and indent_by with it
+        import copy
+        by0 = getattr(P, 'indent_by', None)
+        P = copy.deepcopy(P)
+        root = P
+        classes.add('parent-copied')
+        if getattr(P, 'indent_by', None) != by0:
+            res.bad('copy-lost-indent_by', f'a deep copy of a {type(P).__name__} with indent_by {by0!r} has indent_by {getattr(P, "indent_by", None)!r}: its new '
+                    f'children would not follow the documented rule')
+            res.classes = sorted(classes)
+            return res
     before = existing_indents(root)
     items = [x for x in P.raw_meta_with_comments if type(x).__name__ == 'MetaItem'] if hasattr(P, 'raw_meta_with_comments') else []
     sib = [x.indent for x in items]
@@ -307,6 +319,7 @@ def _build(tier: str):
                 'x': blanks() if g.p(0.8) else '', 'text': D.comment_value(g), 'attr': g.pick(['leading_comment', 'trailing_comment']),
                 'on_meta': g.p(0.5), 'oi': g.n(0, 3), 'prime_meta': g.p(0.5), 'reindent': blanks() if g.p(0.4) else None, 'reindent_raw': g.p(0.3),
                 'how': g.pick(['setitem', 'setitem', 'update', 'update-kw', 'setdefault'])}
+        case['via_copy'] = g.p(0.25)
         if g.p(0.5):
             case['reset'] = {'x': blanks() if g.p(0.8) else '', 'text': D.comment_value(g)}
         if route == 'comment-setter' and not posting and k == 0:
